@@ -132,7 +132,7 @@ def HOOK(k, o, key="", arg=None, st=""):
     dec = Rec.policy.decide(k, o, key)
     vals, inj = snapshot()
     ev = {"e": "cb", "k": k, "o": o, "key": key, "raise": bool(dec["raise"]), "w": dec["w"],
-          "adv": dec["adv"], "ret": dec["ret"], "eng": list(dec.get("eng", [])), "st": st,
+          "adv": dec["adv"], "ret": dec["ret"], "eng": list(dec.get("eng", [])), "st": st, "dsw": dec.get("dsw", ""),
           "t": wpilib.RobotController.getFPGATime() - Rec.t0,
           "m": Rec.inst.getEntry("/robot/mode").getString(""),
           "vals": vals, "inj": inj,
@@ -144,6 +144,14 @@ def HOOK(k, o, key="", arg=None, st=""):
         getattr(Rec.robot, c).engage()
     if dec["adv"]:
         hs.stepTimingAsync(dec["adv"])
+    if dec.get("dsw"):
+        # the driver station sends a new control word while this callback runs: it is queued (not polled for the robot:
+        # DriverStationSim.notifyNewData() would call refreshData() itself); the robot sees it at its next poll
+        m = dec["dsw"]
+        hs.setDriverStationEnabled(m != "disabled")
+        hs.setDriverStationAutonomous(m == "auto")
+        hs.setDriverStationTest(m == "test")
+        hs.notifyDriverStationNewData()
     if dec["raise"]:
         # the class of the exception must not matter (AttributeError looks like "hook not defined" to a careless getattr)
         kinds = (RuntimeError, AttributeError, KeyError, ValueError, ZeroDivisionError, AssertionError, LookupError,
@@ -416,7 +424,9 @@ def write_auto_package(root, layout):
 # ------------------------------------------------------------------------------------------------
 # environment policies
 # ------------------------------------------------------------------------------------------------
-NOOP = {"raise": False, "w": [], "adv": 0, "ret": 0, "eng": []}
+NOOP = {"raise": False, "w": [], "adv": 0, "ret": 0, "eng": [], "dsw": ""}
+DSW_SITES = ("on_disable", "on_enable", "teleopInit", "autonomousInit", "disabledInit", "testInit", "teleopPeriodic",
+             "robotPeriodic", "execute", "auto.on_disable")
 ENGAGERS = ("teleopPeriodic", "auto.on_iteration", "execute", "disabledPeriodic", "on_enable", "robotPeriodic")
 FAULT_SITES = ("on_enable", "on_disable", "execute", "autonomousInit", "teleopInit", "teleopPeriodic",
                "disabledInit", "disabledPeriodic", "testInit", "testPeriodic", "robotPeriodic", "feedback",
@@ -468,7 +478,7 @@ class RandomPolicy:
         sk = (k + (":" + key if k == "feedback" else ""), o)
         n = self.count[sk] = self.count.get(sk, 0) + 1
         f = self.fault.get(sk)
-        d = {"raise": f == "all" or f == n, "w": [], "adv": 0, "ret": 0, "eng": []}
+        d = {"raise": f == "all" or f == n, "w": [], "adv": 0, "ret": 0, "eng": [], "dsw": ""}
         sms = self.layout.get("sm", [])
         if sms and k in ENGAGERS and rng.random() < 0.35:
             d["eng"] = [rng.choice(sms)]
@@ -485,6 +495,11 @@ class RandomPolicy:
             d["adv"] = rng.choice([P // 2, P, P + 1000, 3 * P + 7])
         if k == "feedback":
             d["ret"] = rng.randint(0, 99)
+        if k in DSW_SITES and rng.random() < 0.03 and not self.ended:
+            # the driver station changes its mind in the middle of an iteration / a transition
+            m = rng.choice([x for x in ("disabled", "auto", "teleop", "test") if x != self.cur])
+            self.cur = m
+            d["dsw"] = m
         return d
 
     def env_events(self):
@@ -530,7 +545,7 @@ class ScriptPolicy:
                 e = self.ev[j]
                 if not e.get("_used") and e["o"] == o and e.get("key", "") == key:
                     e["_used"] = True
-                    return {"raise": e["raise"], "w": list(e["w"]), "adv": e["adv"], "ret": e["ret"], "eng": []}
+                    return {"raise": e["raise"], "w": list(e["w"]), "adv": e["adv"], "ret": e["ret"], "eng": [], "dsw": ""}
                 j += 1
             # no entry for this getter (the scripted behaviour ended, e.g. with a fatal fault, before calling it)
             return dict(NOOP, w=[], eng=[])
@@ -539,7 +554,7 @@ class ScriptPolicy:
             if e["e"] == "cb" and e["k"] == k and e["o"] == o and e.get("key", "") == key:
                 self.i += 1
                 return {"raise": e["raise"], "w": list(e["w"]), "adv": e["adv"], "ret": e["ret"],
-                        "eng": list(e.get("eng", []))}
+                        "eng": list(e.get("eng", [])), "dsw": e.get("dsw", "")}
             self.desync += 1      # the script has a different event here
             self.where.append({"i": self.i, "script": {x: e[x] for x in e if x in ("e", "k", "o", "key")},
                                "actual": [k, o, key]})
